@@ -1,13 +1,13 @@
 CONSTANTS
-    Chans = {1, 2}
+    Chans = {1}
     MaxCalls = 1
     SrvBudget = 1
     Ops = {"declare"}
     SrvKinds = {"chclose", "connclose"}
     Faults = {"eof"}
     ClientClose = FALSE
-    Bug = {}
+    Bug = {"keepsender"}
 SPECIFICATION FairSpec
-INVARIANTS Released NoStuckCaller
+
 PROPERTIES EveryCallerReleased
 CHECK_DEADLOCK FALSE
